@@ -28,13 +28,16 @@ def tmpfile():
 
 def saveload(case):
     idx, scores = case
-    line = {"kind": "saveload", "saved": [], "loaded": [], "raised": "", "case": {"scores": scores}}
+    line = {"kind": "saveload", "saved": [], "loaded": [], "raised": "", "target": 0, "case": {"scores": scores}}
     path = tmpfile()
     try:
         seqs = [build(sc, via(idx + i)) for i, sc in enumerate(scores)]
         line["saved"] = [P.raw_rel(s) for s in seqs]
         Sequence.sequences_save(seqs, path)
-        loaded = Sequence.sequences_load(file_path=path)
+        tgt = idx % len(seqs)
+        line["target"] = tgt
+        loaded = Sequence.sequences_load(file_path=path) if tgt == 0 and idx % 2 == 0 else \
+            Sequence.sequences_load(file_path=path, target_meta_track_index=tgt)
         line["loaded"] = [P.raw_abs(s) for s in loaded]
     except Exception as e:
         line["raised"] = f"{type(e).__name__}: {e}"
@@ -162,28 +165,31 @@ def track_from_score(score, scale, rng, ch):
 
 
 def random_track(rng, ch, nmax=8, sig=True, ones=False):
+    """a track; `ch` may be a tuple of channels (one MIDI track carrying several channels, same pitches on both)"""
+    chans = ch if isinstance(ch, tuple) else (ch,)
     evs, open_, T = [], {}, 0
     for _ in range(rng.randint(1, nmax)):
-        dt = 1 if ones else rng.choice([0, 1, 1, 2, 3, 5, 7, 11, 30, 100])
+        dt = 1 if ones else rng.choice([0, 0, 1, 1, 2, 3, 5, 7, 11, 30, 100])
         r = rng.random()
         if open_ and r < .5:
-            p = rng.choice(sorted(open_))
-            del open_[p]
-            evs.append({"ty": "off", "p": p, "ch": ch, "dt": dt, "as_on0": rng.random() < .5, "v": 0})
+            c, p = rng.choice(sorted(open_))
+            del open_[(c, p)]
+            evs.append({"ty": "off", "p": p, "ch": c, "dt": dt, "as_on0": rng.random() < .5, "v": 0})
         elif r < .85:
             p = rng.choice([60, 61, 62, 72])
-            if p in open_:
+            c = rng.choice(chans)
+            if (c, p) in open_:
                 continue
-            open_[p] = True
-            evs.append({"ty": "on", "p": p, "ch": ch, "v": rng.randint(1, 127), "dt": dt})
+            open_[(c, p)] = True
+            evs.append({"ty": "on", "p": p, "ch": c, "v": rng.randint(1, 127), "dt": dt})
         elif sig and r < .93:
             evs.append({"ty": "ts", "n": rng.choice([2, 3, 4, 6]), "d": rng.choice([4, 8]), "dt": dt})
         elif sig:
             evs.append({"ty": "ks", "k": rng.choice(KEYS), "dt": dt})
         else:
             evs.append({"ty": "text", "dt": dt})
-    for p in sorted(open_):
-        evs.append({"ty": "off", "p": p, "ch": ch, "dt": rng.choice([1, 2, 9]), "v": 0})
+    for c, p in sorted(open_):
+        evs.append({"ty": "off", "p": p, "ch": c, "dt": rng.choice([0, 1, 2, 9]), "v": 0})
     return evs
 
 
@@ -276,7 +282,7 @@ def run_load(ctx, g):
         for k in range(30000 if ctx.thorough else 3500):
             res = rng.choice(ress)
             nt = rng.randint(1, 4)
-            tracks = [random_track(rng, rng.choice([0, 1, t]), nmax=rng.choice([4, 8, 40]), ones=rng.random() < .2)
+            tracks = [random_track(rng, rng.choice([0, 1, t, (0, 1), (0, 3)]), nmax=rng.choice([4, 8, 40]), ones=rng.random() < .2)
                       for t in range(nt)]
             groups, meta, tgt = random_routing(rng, nt)
             cases.append((len(cases), res, tracks, groups, meta, tgt))
